@@ -195,6 +195,14 @@ def vRoi (get : Get) (d : D) : List Cue :=
     (d.images.filter fun i => !isNat vx i.2.2).map (fun i => .roiMismatch "roi size x" i.1)
   | _, _ => []
 
+/-- the variant that stops at the first image-like feature present ("one cue per key") -/
+def vRoiFirstOnly (get : Get) (d : D) : List Cue :=
+  match get ("imaging", "roi size x"), get ("imaging", "roi size y") with
+  | some vx, some vy =>
+    ((d.images.take 1).filter fun i => !isNat vy i.2.1).map (fun i => .roiMismatch "roi size y" i.1) ++
+    ((d.images.take 1).filter fun i => !isNat vx i.2.2).map (fun i => .roiMismatch "roi size x" i.1)
+  | _, _ => []
+
 def positiveKeys : List Key :=
   [("imaging", "frame rate"), ("imaging", "pixel size"), ("setup", "channel width"),
    ("setup", "flow rate")]
